@@ -165,7 +165,7 @@ import copy
 
 EXPR_TAGS = {"int", "long", "float", "double", "char", "str", "bool", "nil", "recnil", "var", "un", "bin", "and", "or", "cond",
              "assign", "seq", "while", "dowhile", "for", "forin", "call", "builtin", "lam", "arrlit", "arrnew", "index",
-             "record", "tuple", "field", "enumval", "enumrec", "match", "iflet", "listcomp"}
+             "record", "tuple", "field", "enumval", "enumrec", "match", "iflet", "listcomp", "range", "slice"}
 
 def is_expr(x):
     return isinstance(x, list) and x and isinstance(x[0], str) and x[0] in EXPR_TAGS
